@@ -430,3 +430,31 @@ CHECKS["C02"] = dict(
     technique="property-based testing (rapid): stateful two-instance history with fault injection, convergence + newest-write oracle",
     design_ref="DESIGN.md section 4, C02",
 )
+
+CHECKS["C04"] = dict(
+    pkg="c04", level="fault_enumeration",
+    build_cmds=[dict(pkg="./cmd/crashsup", out="crashsup"), dict(pkg="./cmd/crashwriter", out="crashwriter")],
+    props=[dict(name="TestPropCrashAnywhere", quick=24, thorough=32, shards_quick=12, shards_thorough=16, shrinktime="60s",
+                timeout_quick=1800, timeout_thorough=14400)],
+    rule="a child process (cmd/crashwriter) opens a store on a fresh file and replays a rapid-drawn history of 5-25 acknowledged "
+         "batches (node creation edge-first or points-first, node-point batches of 1-5 points, edge-point batches with "
+         "tombstone flips, a mirror), printing READY <root> <token> and ACK <i>; it runs under a ptrace supervisor "
+         "(cmd/crashsup) that counts, over all threads, the entries into I/O system calls (write/pwrite/writev to files, fsync, "
+         "fdatasync, ftruncate, fallocate, unlink, rename) and delivers SIGKILL on entry to the N-th. A dry run gives the total "
+         "W and where READY and each ACK fall. Quick: per history N in {1, W, READY, READY+1} + 4 drawn during initialisation + "
+         "16 drawn during the history; thorough: every N in 1..W for each history. After each kill the file is reopened by a "
+         "fresh instance. Oracle: it opens and answers; root id is the configured one and equals the one reported at READY; a "
+         "token issued before the kill is accepted and one signed with another key is not; every batch up to the last ACK is "
+         "fully visible (newest-wins model) and the next one is visible completely or not at all (edge, type, edge points and "
+         "node points together); every stored hash equals the Merkle hash of the content (C03 oracle); a follow-up write "
+         "works. Evaluations count kill-and-reopen cycles; non-trivial histories = at least two kills landed strictly inside a "
+         "batch.",
+    assumptions=["process death only: the page cache survives, so power loss, torn sectors and synchronous=NORMAL durability are not exercised",
+                 "instants between two system calls are represented by the kill on entry to the next one",
+                 "ptrace must be permitted (it is in this sandbox)"],
+    level_text="Fault enumeration over crash points: every prefix of the I/O a history performs (thorough) or a sample of prefixes (quick), "
+               "over generated histories (rapid), with recovery checked against the newest-wins and Merkle models.",
+    level_note="Trusted: the ptrace supervisor's global count of I/O system calls; the child reports an ACK only after the store's reply.",
+    technique="property-based testing (rapid) for histories x enumeration of crash points with a ptrace fault injector",
+    design_ref="DESIGN.md section 4, C04",
+)
